@@ -22,6 +22,10 @@ CLAIMED = {
    text="Bounded model checking of rate selection with z3: for every shipped regime x category x rate key x qualifier context (tables imported natively from the initialised registry of the current tree) and for EVERY valid civil date 1900..2100 (symbolic year/month/day) the solver shows RateDef.Value and Combo.prepareRate return the applicable value with the latest start date on or before the date (none => error, exempt => no percent, surcharge copied); a generic lemma over arbitrary 1..3-value tables with symbolic dates shows the order check admits only strictly descending tables and Value is latest-on-or-before for them.",
    note="Assumes native import by reflection is faithful, go/ssa faithful, z3 sound. Outside: value-date/issue-date choice in bill.calculate; ordering of tag/extension-qualified values (not checked by the code either). Defects found and fixed: start date exclusive (1536397), nil Since panic (d50e370).",
    ref="DESIGN.md 5 (C12)"),
+ "C20": dict(
+   text="Bounded model checking of tax.Total Merge/Negate/Clone and bill.Payment.calculate with z3 over a family of summary shapes (1-2 rate groups from six kinds incl. surcharges, exempt and extension-qualified rows, optional category surcharge, optional retained category) with ALL amounts symbolic: component-wise sums per category and rate group in both operand orders, sign flip of every amount incl. surcharges, merge-with-negation is zero, operands frozen (no store into an operand, result shares no mutable cell), payment total = sum of debit - credit converted with the declared rate, payment tax summary = merge of the documents' summaries.",
+   note="Assumes go/ssa faithful, z3 sound, native currency registry import. Amounts of corresponding rows carry equal exponents (2 decimals); payment stage uses the C05-proven summaries of Rescale/Multiply/Divide (lemmas re-run first). Defects found and fixed: 0ae6075, a892f76, cea7416.",
+   ref="DESIGN.md 5 (C20)"),
 }
 
 NA = {
